@@ -203,55 +203,115 @@ def job(args):
 def global_rules(sm, rep, tier):
     fs = sm.func('advection', '_fsign')
     rep.unit('advection._fsign')
-    param = fs.node.args.args[0].arg
-    # tiny AST units walk: dimension symbols: 'G' (the argument), '1' (numbers), 'any' (the literal 0)
-    problems = []
+    from ..pw import inlined_return
+    a = fs.node.args
+    param = a.args[0].arg
+    defaults = {x.arg: d for x, d in zip(a.args[len(a.args) - len(a.defaults):], a.defaults)}
+    # tiny AST units walk over the returned expression (local assignments inlined).  Dimension symbols: 'G' (the argument),
+    # '1' (pure numbers), 'any' (the literal 0).  Every place where a pure number is compared with / added to / selected
+    # next to a quantity of the argument's dimension is an *absolute threshold*; it is identified by the literal or the
+    # defaulted parameter it comes from, so that a different threshold is a different finding.
+    problems = {}         # threshold id -> [descriptions]
+    unsupported = []
+
+    def thr_ids(n):
+        ids = []
+        for x in ast.walk(n):
+            if isinstance(x, ast.Name) and x.id != param and x.id in defaults and isinstance(defaults[x.id], ast.Constant):
+                ids.append(f"{x.id}={defaults[x.id].value!r}")
+            elif isinstance(x, ast.Name) and x.id != param and x.id not in ('np', 'numpy'):
+                ids.append(x.id)
+            elif isinstance(x, ast.Constant) and isinstance(x.value, (int, float)) and x.value != 0:
+                ids.append(repr(x.value))
+        return sorted(set(ids)) or ['<literal>']
+
+    def flag(n, pure_side, what):
+        for t in thr_ids(pure_side):
+            problems.setdefault(t, []).append(f"line {n.lineno}: `{ast.unparse(n)[:80]}` {what}")
 
     def dim(n):
         if isinstance(n, ast.Constant):
             return 'any' if n.value == 0 else '1'
         if isinstance(n, ast.Name):
-            if n.id == param:
-                return 'G'
-            return '1'            # eps1 and other literals / defaults
+            return 'G' if n.id == param else '1'            # eps1 and other literals / defaults
         if isinstance(n, ast.Call):
             fname = n.func.attr if isinstance(n.func, ast.Attribute) else getattr(n.func, 'id', '?')
-            if fname in ('abs', 'absolute'):
+            if fname in ('abs', 'absolute', 'asarray', 'array', 'float64', 'float', 'copy'):
                 return dim(n.args[0])
             if fname == 'sign':
                 dim(n.args[0])
                 return '1'
-            problems.append(f"line {n.lineno}: call {fname}")
+            if fname in ('logical_and', 'logical_or', 'logical_not'):
+                for x in n.args:
+                    dim(x)
+                return '1'
+            if fname in ('maximum', 'minimum', 'fmax', 'fmin') and len(n.args) == 2:
+                da, db = dim(n.args[0]), dim(n.args[1])
+                if 'any' not in (da, db) and da != db:
+                    flag(n, n.args[0] if da == '1' else n.args[1], "clips a quantity of the argument's dimension at a pure number")
+                return da if da not in ('any', '1') else db
+            if fname == 'where' and len(n.args) == 3:
+                dim(n.args[0])
+                da, db = dim(n.args[1]), dim(n.args[2])
+                if 'any' not in (da, db) and da != db:
+                    flag(n, n.args[1] if da == '1' else n.args[2], "selects between a pure number and a quantity of the argument's dimension")
+                return da if da not in ('any', '1') else db
+            if fname in ('isclose', 'allclose') and len(n.args) >= 2:
+                da, db = dim(n.args[0]), dim(n.args[1])
+                kw = {k.arg: k.value for k in n.keywords}
+                atol = kw.get('atol', n.args[3] if len(n.args) > 3 else None)
+                d = da if da not in ('any',) else db
+                if d not in ('1', 'any'):
+                    if atol is None:
+                        problems.setdefault(f"np.{fname} default atol=1e-08", []).append(
+                            f"line {n.lineno}: `{ast.unparse(n)[:80]}` compares a quantity of the argument's dimension with numpy's absolute default tolerance atol=1e-08")
+                    elif dim(atol) == '1':
+                        flag(n, atol, "uses an absolute tolerance against a quantity of the argument's dimension")
+                return '1'
+            unsupported.append(f"line {n.lineno}: call {fname}")
             return '?'
         if isinstance(n, ast.Compare):
-            a, b = dim(n.left), dim(n.comparators[0])
-            if 'any' not in (a, b) and a != b:
-                problems.append(f"line {n.lineno}: `{ast.unparse(n)}` compares a quantity of the argument's dimension with a pure number")
+            da, db = dim(n.left), dim(n.comparators[0])
+            if 'any' not in (da, db) and da != db:
+                flag(n, n.left if da == '1' else n.comparators[0], "compares a quantity of the argument's dimension with a pure number")
             return '1'
+        if isinstance(n, ast.BoolOp):
+            for x in n.values:
+                dim(x)
+            return '1'
+        if isinstance(n, ast.IfExp):
+            dim(n.test)
+            da, db = dim(n.body), dim(n.orelse)
+            if 'any' not in (da, db) and da != db:
+                flag(n, n.body if da == '1' else n.orelse, "selects between a pure number and a quantity of the argument's dimension")
+            return da if da not in ('any', '1') else db
         if isinstance(n, ast.BinOp):
-            a, b = dim(n.left), dim(n.right)
+            da, db = dim(n.left), dim(n.right)
             if isinstance(n.op, (ast.Add, ast.Sub)):
-                if 'any' not in (a, b) and a != b:
-                    problems.append(f"line {n.lineno}: `{ast.unparse(n)[:70]}` adds a pure number to a quantity of the argument's dimension")
-                return a if a != 'any' else b
-            if isinstance(n.op, ast.Mult):
-                if a == '1' or a == 'any':
-                    return b
-                if b == '1' or b == 'any':
-                    return a
-                return a + '*' + b
+                if 'any' not in (da, db) and da != db:
+                    flag(n, n.left if da == '1' else n.right, "adds a pure number to a quantity of the argument's dimension")
+                return da if da not in ('any', '1') else db
+            if isinstance(n.op, (ast.Mult, ast.BitAnd, ast.BitOr)):
+                if da in ('1', 'any'):
+                    return db
+                if db in ('1', 'any'):
+                    return da
+                return da + '*' + db
             if isinstance(n.op, ast.Div):
-                return a if b in ('1', 'any') else a + '/' + b
+                return da if db in ('1', 'any') else ('1' if da == db else da + '/' + db)
+            if isinstance(n.op, ast.Pow):
+                return da if db in ('1', 'any') and isinstance(n.right, ast.Constant) and n.right.value == 1 else (da + '^k' if da == 'G' else da)
         if isinstance(n, ast.UnaryOp):
             return dim(n.operand)
-        problems.append(f"unsupported node {type(n).__name__}")
+        unsupported.append(f"unsupported node {type(n).__name__}")
         return '?'
-    ret = [st.value for st in fs.node.body if isinstance(st, ast.Return)]
-    if len(ret) != 1:
-        raise AnalysisError("_fsign: expected a single return")
-    dim(ret[0])
-    rep.ob('H4', 'advection._fsign/absolute-threshold' if problems else 'advection._fsign', not problems,
-           '; '.join(problems[:3]) or "no literal threshold meets a dimensional quantity", fs.loc())
+    dim(inlined_return(fs.node))
+    if unsupported:
+        raise AnalysisError("_fsign: " + '; '.join(unsupported[:3]))
+    if not problems:
+        rep.ob('H4', 'advection._fsign', True, "no literal threshold meets a dimensional quantity", fs.loc())
+    for t, descs in sorted(problems.items()):
+        rep.ob('H4', f"advection._fsign/absolute-threshold[{t}]", False, '; '.join(descs[:3]), fs.loc())
     # where it is applied: to a gradient (K/L) in all 9 TVD builders -> dimensional
     rep.notes.append("_fsign is applied to dphi (dimension K/L) in every convectionTvdRHS* builder")
 
